@@ -126,14 +126,15 @@ CHECKS = {
             "SerJson.ser_doc inside Coq and requires equality with serialize_json's output (and counts the trees the theorem applies to), (ii) evaluates Spec6.v on the resolved document for values "
             "aimed at the tree and requires the element's verdict to lie in the tolerated set, (iii) checks json.dumps, $ref resolution and the Draft-6 metaschema (jsonschema).  Findings K15, K21.",
             "full on reference-free trees; trees with classes by model recomputation and the Spec6 oracle evaluated in Coq"),
-    "C06": ("Coq theorem C06_normal_form_keeps_meaning (the parser's image is DSL-constructible, so C01 and C03 meet at the parsed element: serialize(parse S) accepts what S accepts) + models of both directions tied by correspondence on every run; syntactic idempotence decided by the real pipeline materialize->parse->serialize three times + executed Python classes vs parsed classes",
-            "C06_normal_form_keeps_meaning: for every schema of the class-free fragment with non-empty property names, the element the parser returns lies in the fragment of C03_meaning and the "
-            "document serialized from it is accepted (Spec6.v6) by exactly the values the source schema accepts, for every value on which the element's call does not crash.  The syntactic "
-            "norm(norm S) = norm S is not a theorem: materialize (json_ref_dict) is third-party and the title de-duplication makes it FALSE in general (finding K22, a 2-cycle of class names).  "
-            "Ingredients proved on each side: the parser keeps every default (C07_parsed_default), the serializer emits exactly the explicit+property required names under JSON names (C03_*), "
-            "keyword/signature tables agree with /repo.  The run decides idempotence on the implementation (J1 == J2 == J3 type-strictly, executed classes == parsed classes) and checks the parser "
-            "model on the same documents.  Findings K22, K23.",
-            "meaning preservation proved on the class-free fragment; syntactic idempotence by pipeline oracle"),
+    "C06": ("Coq theorems by induction on the schema and on the element tree: C06_idempotent_classfree (class-free schemas: the parser's image lies in the normal form nf, and on nf parse(serialize e) = e in every parse state, so the second round trip writes the first document), C06_normal_form_keeps_meaning (serialize(parse S) accepts what S accepts), refutation C06_idempotence_refuted (K24) + executable sound checkers of both fragments counted per run + the real pipeline materialize->parse->serialize three times + executed Python classes vs parsed classes",
+            "C06_idempotent_classfree: for every schema of the class-free fragment (C01's plain) with no empty property name and `tidy` (no empty required list / properties object: finding K24 otherwise; "
+            "additionalItems/additionalProperties a boolean or a schema without composition keywords), every parse state and configuration satisfying cfg_okb (decided on the tables read from /repo): the element "
+            "the parser returns lies in the normal form nf (C06_parser_image_normal) and for every nf element parsing the serialized document returns the element itself and leaves the state unchanged "
+            "(C06_round_trip_normal_form; 27 keywords, properties/required flags, dependencies, tuple items, compositions, type lists), hence J2 = J1 exactly.  C06_normal_form_keeps_meaning: on the class-free "
+            "named fragment serialize(parse S) accepts (Spec6.v6) exactly what S accepts.  Executable checkers NfFrag.nfb / named_tidyb proved sound and counted per run (codes 9/10).  NOT covered by theorem: object "
+            "classes and $ref (title de-duplication makes idempotence FALSE in general: K22), json_ref_dict.materialize (third-party), the Python half (exec of generated source).  The run decides those on the "
+            "implementation (J1 == J2 == J3 type-strictly, executed classes == parsed classes) and compares the model's document with the pipeline's J1 on every normal-form document.  Findings K22, K23, K24.",
+            "syntactic idempotence and meaning preservation proved on the class-free fragment; classes/$ref/Python half by pipeline oracle"),
     "C09": ("Coq theorems quantified over ALL set-enumeration orders (parser order-free, sorted() output order-free, refutation for set-typed iteration) + set-iteration sites of the whole package regenerated from /repo and checked against the audited ones + byte comparison across 8/32 fresh interpreters with different PYTHONHASHSEED",
             "C09_order_free / C09_parse_order_free: the parser does not consult set order (proved from the iteration kind the translator reads from /repo: it fails when the "
             "loop iterates a set again); C09_sorted_is_order_free: sorted() of any enumeration of the same set is the same list; C09_set_iteration_audited: every "
